@@ -77,7 +77,7 @@ fn script(u: &mut U, faults: bool) -> Script {
     let fsel = u.u8();
     let (fk, fe) = (u.u8(), u.u8());
     let fault = if faults && fsel % 3 != 0 { Some((fk as u32 % 60, ALL_EK[fe as usize % ALL_EK.len()])) } else { None };
-    Script { chunks, interrupts, fault, sticky: faults && fsel >= 192 }
+    Script { chunks, interrupts, fault, sticky: faults && fsel >= 192, payload: if fk >= 200 { fe % 5 } else { 0 } }
 }
 
 fn format(b: u8) -> Format {
